@@ -299,16 +299,19 @@ def fireAll (T : Table) (ver : Ver) (fn : Fn) (h : Nat) : List Nat → State →
       let s1 ← fire T ver fn h s id
       fireAll T ver fn h rest s1
 
+/-- record revision number `n` as the one on chain: v1 `confirmed_revision_number := n`; v2 the state
+element's `revision_number := n` if an element is stored -/
+def setRev (c : Contract) (n : Nat) : Contract :=
+  match c.ver with
+  | .v1 => { c with confRev := some n }
+  | .v2 => { c with confRev := c.confRev.map (fun _ => n) }
+
 /-- applyContractRevision: `UPDATE contracts SET confirmed_revision_number=? WHERE contract_id=?` (n ≠ 1 → error);
 applyV2ContractRevision: contract must exist, the element update affects zero rows when no element is stored. -/
 def setConfRev (ver : Ver) (s : State) (idrev : Nat × Nat) : Except Fault State :=
   match findC ver idrev.1 s.cs with
   | none => .error (.error "no rows updated")
-  | some c =>
-    let c' := match ver with
-      | .v1 => { c with confRev := some idrev.2 }
-      | .v2 => { c with confRev := c.confRev.map (fun _ => idrev.2) }
-    .ok { s with cs := setC c' s.cs }
+  | some c => .ok { s with cs := setC (setRev c idrev.2) s.cs }
 
 def setConfRevAll (ver : Ver) : List (Nat × Nat) → State → Except Fault State
   | [], s => .ok s
@@ -554,11 +557,6 @@ inductive Ev where
   | revise (old new : Nat)      -- revision confirmed: recorded number goes old → new (revert: new → old)
   | succ | renew | fail
 deriving DecidableEq, Repr
-
-def setRev (c : Contract) (n : Nat) : Contract :=
-  match c.ver with
-  | .v1 => { c with confRev := some n }
-  | .v2 => { c with confRev := c.confRev.map (fun _ => n) }
 
 def evApply (T : Table) (h : Nat) (c : Contract) : Ev → Except Fault Contract
   | .form r => fireC T .aForm h (if c.ver = .v2 then { c with confRev := some r } else c)
